@@ -49,7 +49,8 @@ func concScript(sc concScenario) string {
 	sb.WriteString("class Box<T> { public T $v; function put(T $x) { $this->v = $x; return $this; } }\n")
 	if sc.Shared {
 		// one closure, spawned len(Types) times: every coroutine executes the same `new Box<T>()` node
-		fmt.Fprintf(&sb, "for ($i = 0; $i < %d; $i = $i + 1) {\nspawn(function() use ($i) {\n  gate(); $b = new Box<%s>(); gate();\n", len(sc.Types), sc.Types[0])
+		// cid(): a fresh coroutine number at the coroutine's first step (a captured loop variable is not per coroutine)
+		fmt.Fprintf(&sb, "for ($n = 0; $n < %d; $n = $n + 1) {\nspawn(function() {\n  $i = cid(); gate(); $b = new Box<%s>(); gate();\n", len(sc.Types), sc.Types[0])
 		for _, k := range concKinds {
 			fmt.Fprintf(&sb, "  try { $b->v = %s; crec($i, \"%s\", 1); } catch (Throwable $e) { crec($i, \"%s\", 0); } gate();\n", concLits[k], k, k)
 		}
@@ -89,6 +90,8 @@ func concBuild(sc concScenario) (func() []sched.Body, func() *concState) {
 		php.Load(vm)
 		rv := vm.(*ort.VM)
 		rv.RegisterFunction("gate", func() int { vshim.Yield("gate"); return 0 })
+		ncid := 0
+		rv.RegisterFunction("cid", func() int { ncid++; return ncid - 1 })
 		rv.RegisterFunction("crec", func(t int, k string, acc int) int { st.got[fmt.Sprintf("%d:%s", t, k)] = acc; return 0 })
 		vm.SetThrowControl(func(acl data.Control) { st.uncaught = append(st.uncaught, acl.AsString()) })
 		prog, acl := p.ParseString(src, "c19.zy")
